@@ -28,6 +28,14 @@ def handleFitting : List String → Option String
       match approximateCurve p P cds nc floorRat with
       | some (kv, cp) => return s!"{showList kv} {showPts cp}"
       | none => return "ERR"
+  | ["fit.asurf", pu, pv, su, sv, ps, cu, cv, ncu, ncv] => do
+      let pu ← pu.toNat?; let pv ← pv.toNat?; let su ← su.toNat?; let sv ← sv.toNat?
+      let P ← parsePts ps; let cu ← parsePts cu; let cv ← parsePts cv; let ncu ← ncu.toNat?; let ncv ← ncv.toNat?
+      -- with 2 control points in a direction `N` has no column and `matrix_multiply` raises IndexError
+      if pu = 0 || pv = 0 || ncu < pu + 1 || ncv < pv + 1 || ncu < 3 || ncv < 3 || su < ncu || sv < ncv || P.length != su * sv then return "ERR"
+      match approximateSurface pu pv su sv P cu cv ncu ncv floorRat with
+      | some (ku, kv, cp) => return s!"{showList ku} {showList kv} {showPts cp}"
+      | none => return "ERR"
   | _ => none
 
 end Drv
